@@ -786,7 +786,10 @@ PROPS["C20"] = {
     "level_text": "Proved in Lean: in every reachable state of the readers/writer lock a goroutine inside a write section is the only one inside any section (reachable_exclusive), so a "
                   "write to a guarded map never overlaps another access; for every order in which atomic registry operations take effect - hence for every interleaving of the "
                   "goroutines' programs - registering one version succeeds at most once (register_at_most_once), exactly once for the first to take effect (first_registration_wins), "
-                  "and a lookup that takes effect after an add or a successful registration finds a value (lookup_after_put). That every Go method touching the guarded maps is one "
+                  "and a lookup that takes effect after an add or a successful registration finds a value (lookup_after_put). That one step of that model is a whole critical section is "
+                  "justified by a second model in which a section is a sequence of single map accesses interleaved with the other goroutines' steps: a write section runs alone "
+                  "(writer_runs_alone: while a goroutine is inside one, every step of the system is its own) and the map does not change while anybody is inside a read section "
+                  "(reader_sees_constant_map), both for every reachable state. That every Go method touching the guarded maps is one "
                   "critical section of the right kind, and that no other shared component assigns through its receiver or to a package-level variable, are facts regenerated from the "
                   "Go AST on every run.",
     "level_note": "partial: the Go memory model, sync.RWMutex itself and the scheduler are not modelled; 'no execution contains a data race' is established for the executions the stress "
